@@ -226,6 +226,9 @@ def inbound_case(seed, role="client", n=120):
         for k in range(1, n + 1):
             size = rng.choice([0, 0, 10, 300, 5000, 5000, 20000])
             sizes.append(size)
+            if rng.random() < 0.08:
+                stream += R.encode(R.LMsg(1, rng.choice([0xc0, 0x40]), 316, 16777251, k, 0x30000000 + k, []))     # the bare header
+                continue
             stream += R.encode(N.app_request(k, size=size, dest_host=N.LOCAL[0], dest_realm=N.LOCAL[1]))
         info["bytes"] = len(stream)
         mode = rng.choice(["one-byte-head", "random", "header-internal", "mtu", "whole"])
@@ -257,7 +260,8 @@ def inbound_case(seed, role="client", n=120):
         for m in got:
             raw = m.dump()
             lm = R.decode(raw)[0]
-            marks.append((N.marker_of(lm), len(raw)))
+            mk = N.marker_of(lm)
+            marks.append((mk if mk is not None else lm.hbh, len(raw)))
         want = list(range(1, n + 1))
         if [x for x, _ in marks] != want:
             info.update(result="violation", key="real-loopback-inbound-sequence-differs", detail="delivered markers %s..., sent 1..%d (%s)" % (
@@ -423,10 +427,13 @@ def lifecycle_case(seed, role="client", cause="peer-disconnect", consumer=True):
             threading.Thread(target=blocked, daemon=True, name="blocked-consumer").start()
             time.sleep(0.05)
         if cause == "peer-dpr":
-            sc.psock.sendall(R.encode(N.dpr(hbh=71, e2e=72)))
-            (dpa,), _ = sc.recv_messages(1)
-            if N.name_of(dpa) != "DPA" or (dpa.hbh, dpa.e2e) != (71, 72):
-                problems.append("DPR answered with %s %r" % (N.name_of(dpa), (dpa.hbh, dpa.e2e)))
+            dpr_cause = rng.choice([0, 1, 2])
+            info["dpr_cause"] = dpr_cause
+            sc.psock.sendall(R.encode(N.dpr(hbh=71, e2e=72, cause=dpr_cause)))
+            if dpr_cause == 0:
+                (dpa,), _ = sc.recv_messages(1)
+                if N.name_of(dpa) != "DPA" or (dpa.hbh, dpa.e2e) != (71, 72):
+                    problems.append("DPR answered with %s %r" % (N.name_of(dpa), (dpa.hbh, dpa.e2e)))
         elif cause == "peer-disconnect":
             sc.psock.close()
         elif cause == "peer-reset-outbound":
